@@ -152,7 +152,7 @@ KdfStep ==
     \/ /\ pc = "Crypt"
        /\ \E m \in MaskPool :
              TryDep([e |-> "Kdf", impl |-> deps.kdf, pwlen |-> Len(call.a.pw), pw |-> call.a.pw, saltlen |-> 16,
-                     salt |-> MaskSalt, iter_lo |-> 10000, iter_hi |-> 0, keylen |-> 32, callerkey |-> FALSE, out |-> m], "Crypt.wipe")
+                     salt |-> MaskSalt, iter_lo |-> 10000, iter_hi |-> 0, keylen |-> 32, keylen_mid |-> 0, keylen_hi |-> 0, callerkey |-> FALSE, out |-> m], "Crypt.wipe")
        /\ taint' = {"str", "mask", "poly"}
        /\ Same(<<ncalls, res>>)
     \/ /\ pc = "Crypt.wipe"                            \* MEMZERO_LOC(poly), (mask), (pass_norm)
@@ -163,7 +163,7 @@ KdfStep ==
        /\ \E m \in MaskPool :
              TryDep([e |-> "Kdf", impl |-> deps.kdf, pwlen |-> 32, pw |-> KeygenPw(SeedOf(call.a.h)), saltlen |-> 32,
                      salt |-> KeygenSalt(SeedOf(call.a.h), call.a.coin), iter_lo |-> 10000, iter_hi |-> 0,
-                     keylen |-> call.a.size, callerkey |-> TRUE, out |-> m], "ret")
+                     keylen |-> call.a.size, keylen_mid |-> 0, keylen_hi |-> 0, callerkey |-> TRUE, out |-> m], "ret")
        /\ Same(<<ncalls, taint, res>>)
 
 \* ---- calls without internal steps ----
